@@ -515,6 +515,14 @@ func replayOne(t *testing.T, rf *vstat.ReplayFile) string {
 				return err.Error()
 			}
 		}
+	case rf.Part == "size":
+		var sc SrvScenario
+		if err := json.Unmarshal(rf.Scenario, &sc); err != nil {
+			return "bad scenario: " + err.Error()
+		}
+		if _, err := runSize(t, &sc, nil); err != nil {
+			return err.Error()
+		}
 	case rf.Part == "atomic":
 		var sc SrvScenario
 		if err := json.Unmarshal(rf.Scenario, &sc); err != nil {
